@@ -133,8 +133,33 @@ Definition s_scope : str := [115; 99; 111; 112; 101].
 Definition s_starting_style : str := [115; 116; 97; 114; 116; 105; 110; 103; 45; 115; 116; 121; 108; 101].
 
 (* lib.rs is_math_function *)
-Definition is_math_name (s : str) : bool :=
-  str_eqb_ci s s_calc || str_eqb_ci s s_min || str_eqb_ci s s_max || str_eqb_ci s s_clamp.
+(* calc, min, max, clamp and the other math functions of CSS Values 4 (their arguments are calc sums), the vendor spellings *)
+Definition math_names : list str :=
+  [(* calc *) [99; 97; 108; 99];
+   (* min *) [109; 105; 110];
+   (* max *) [109; 97; 120];
+   (* clamp *) [99; 108; 97; 109; 112];
+   (* round *) [114; 111; 117; 110; 100];
+   (* mod *) [109; 111; 100];
+   (* rem *) [114; 101; 109];
+   (* sin *) [115; 105; 110];
+   (* cos *) [99; 111; 115];
+   (* tan *) [116; 97; 110];
+   (* asin *) [97; 115; 105; 110];
+   (* acos *) [97; 99; 111; 115];
+   (* atan *) [97; 116; 97; 110];
+   (* atan2 *) [97; 116; 97; 110; 50];
+   (* pow *) [112; 111; 119];
+   (* sqrt *) [115; 113; 114; 116];
+   (* hypot *) [104; 121; 112; 111; 116];
+   (* log *) [108; 111; 103];
+   (* exp *) [101; 120; 112];
+   (* abs *) [97; 98; 115];
+   (* sign *) [115; 105; 103; 110];
+   (* calc-size *) [99; 97; 108; 99; 45; 115; 105; 122; 101];
+   (* -webkit-calc *) [45; 119; 101; 98; 107; 105; 116; 45; 99; 97; 108; 99];
+   (* -moz-calc *) [45; 109; 111; 122; 45; 99; 97; 108; 99]].
+Definition is_math_name (s : str) : bool := existsb (str_eqb_ci s) math_names.
 Definition is_math_fn (t : tok) : bool :=
   match t with TFunc s => is_math_name s | _ => false end.
 
